@@ -59,6 +59,8 @@ def convert(v, src, dst):
         return ('ok', v)
     if dst == 'INTEGER' or dst == 'LONG':
         if src == 'SINGLE' or src == 'DOUBLE':
+            if qb_num.is_inf(v) or v != v:
+                return ('overflow',)
             r = qb_num.round_half_even(v)
         else:
             r = v
